@@ -25,6 +25,7 @@
 
 import functools
 import re
+import unicodedata
 from .prologVisitor import prologVisitor
 from .errors import CompilerError
 
@@ -243,6 +244,11 @@ class YPPrologVisitor(prologVisitor):
             rhs = self.visitPredicateexpression(ctx.predicateexpression())
         else:
             rhs = TruePredicate()
+        if isinstance(lhs, Predicate):
+            # the predicate name becomes part of a Python function name
+            name = lhs.name()
+            if not name.isidentifier() or unicodedata.normalize('NFKC', name) != name:
+                raise CompilerError(self.context.current_source_file, ctx, f"predicate name {name!r} cannot be used in a clause head")
         c = Clause(lhs,rhs)
         return c
 
